@@ -38,7 +38,8 @@ TableVerdict(cf, nk, alpha, out, cols, pre) ==
     IF out.kind = "empty" THEN pre \o "key_set"                 \* rows are expected, none came back
     ELSE IF out.kind # "table" THEN pre \o "not_a_table"
     ELSE IF out.cols # cols THEN pre \o "columns"
-    ELSE IF RowKeys(out.rows) # JoinKeys(cf) \/ ~UniqueKeys(out.rows) THEN pre \o "key_set"
+    ELSE IF RowKeys(out.rows) # JoinKeys(cf) THEN pre \o "key_set"
+    ELSE IF ~UniqueKeys(out.rows) THEN pre \o "one_row_per_key"          \* the right keys, one of them more than once
     ELSE IF [n \in 1..Len(out.rows) |-> out.rows[n].key] \notin KeyOrders(JoinKeys(cf), nk, alpha) THEN pre \o "not_sorted_by_key"
     ELSE ""
 
